@@ -445,6 +445,10 @@ def observe(call, subdir: str, watch_codes=(), timeout=100.0):
         return out
 
     r = run_forked(child, None, timeout)
+    if r.get('timeout'):
+        # watchdog, not a verdict: one more attempt (the machine is shared)
+        r = run_forked(child, None, timeout)
+        r['retried_after_watchdog'] = 1
     tries = 1
     while 'crash_signal' in r and tries < 3:
         # the external engine occasionally dies (SIGSEGV) on its own error paths when several of its worker threads
